@@ -95,7 +95,8 @@ def check(run: Run) -> None:
     # both functions with their private helpers folded back in (extracting `_read_saved_qstring`, `_splice_where_filters`, ... changes nothing)
     from ..flatten import flat_info
 
-    fe, fs = flat_info(model, F_EXPAND, exclude=(F_SAVED, F_NAMES)), flat_info(model, F_SAVED, exclude=(F_NAMES,))
+    slice_fns = [model.funcs[q] for q in sorted(model.reachable([F_EXPAND])) if q.startswith(MOD + ".")]  # the expansion operation: whatever functions / methods carry it
+    run.floor("functions of the saved-query expansion", len(slice_fns), 2)
 
     # ---- R1 / R3: decided by expansion_scenarios (what text comes out for plain / alternative / grouped / nested / diamond / repeated references), not by the shape of the substitution code
     # ---- R2
@@ -167,13 +168,13 @@ def check(run: Run) -> None:
     # ---- R4
     mi = model.module_of(MOD)
     glob = {k for k, v in mi.assigns.items() if isinstance(v, (ast.Dict, ast.List, ast.Set)) or (isinstance(v, ast.Call) and ast.unparse(v.func).split(".")[-1] in ("dict", "set", "list", "defaultdict", "OrderedDict", "lru_cache"))}
-    used = sorted(glob & (names_loaded(fe.node) | names_loaded(fs.node)))
+    used = sorted(glob & set().union(*[names_loaded(f.node) for f in slice_fns]))
     run.check("C15.R4", "no module-level cache of expanded clauses", not used, "_saved_queries", used[0] if used else "-",
               f"module-level container `{used[0] if used else ''}` is consulted during expansion: an expanded clause is reused although a nested saved query changed or was deleted",
               file=FILE)
-    cached = [d for f in (fe, fs) for d in f.decorators() if "cache" in d]
+    cached = [d for f in slice_fns for d in f.decorators() if "cache" in d]
     run.check("C15.R4", "expansion functions are not memoised", not cached, "_saved_queries", cached[0] if cached else "-", "expansion is memoised by a cache decorator", file=FILE)
-    run.units = dict(functions=[F_EXPAND, F_SAVED, F_NAMES])
+    run.units = dict(functions=[f.qualname for f in slice_fns])
     run.assumptions += ["cyclic saved-query sets are excluded by the statement", "the query grammar parses '(' or_filter ')' as a grouped sub-filter"]
 
 
